@@ -769,16 +769,18 @@ def modelledErrorCodes : List (Text × Int) :=
    (t!"stdioServerInternal.HandleRequest", codeInternal),
    (t!"httpServerHandler.handlePostRequest", codeInternal), (t!"httpServerHandler.handlePostRequest", codeInternal)]
 
-/-- every `go` statement of the legacy SSE and stdio servers: (enclosing function, what is started, it recovers). The two
-    per-request ones — `handleRequestMessage → processRequestAsync` and the line handler of `processInputStream` — do not
-    recover: a panic raised while serving a request there ends the process (`Reaction.panic`). -/
-def modelledGoStmts : List (Text × Text × Bool) :=
-  [(t!"SSEServer.handleSSE", t!"handleNotifications", true), (t!"SSEServer.handleSSE", t!"handleEventQueue", true),
-   (t!"SSEServer.handleSSE", t!"handleKeepAlive", true),
-   (t!"SSEServer.handleRequestMessage", t!"s.processRequestAsync", false),
+/-- the functions of the legacy SSE and stdio servers that start a goroutine per incoming message -/
+def perMessageGoFns : List Text :=
+  [t!"SSEServer.handleRequestMessage", t!"SSEServer.handleNotificationMessage", t!"SSEServer.handleNotification",
+   t!"stdioTransport.processInputStream", t!"stdioServerInternal.HandleNotification"]
+
+/-- Their `go` statements: (enclosing function, what is started, the goroutine recovers). None does: a panic raised while
+    serving a message there — `handleRequestMessage → processRequestAsync`, the line handler of `processInputStream` —
+    ends the process (`Reaction.panic`). -/
+def perMessageGoStmts : List (Text × Text × Bool) :=
+  [(t!"SSEServer.handleRequestMessage", t!"s.processRequestAsync", false),
    (t!"SSEServer.handleNotificationMessage", t!"func", false), (t!"SSEServer.handleNotification", t!"func", false),
-   (t!"stdioTransport.listen", t!"s.handleOutgoingMessages", false), (t!"stdioTransport.processInputStream", t!"func", false),
-   (t!"stdioTransport.readNextLine", t!"func", false), (t!"stdioServerInternal.HandleNotification", t!"func", false)]
+   (t!"stdioTransport.processInputStream", t!"func", false), (t!"stdioServerInternal.HandleNotification", t!"func", false)]
 
 /-! ## vocabulary of the property statements -/
 
